@@ -16,7 +16,8 @@ From Gst Require lib.Sx lib.QAux C14.Proc C14.Proofs_proc_rank C14.Proofs_proc_p
 (* END PART proc_pimp *)
 (* BEGIN PART fft_pimp *)
 From Coq Require List ZArith QArith Znumtheory Bool Lia.
-From Gst Require C14.FFT C14.Proofs_fft_ops C14.Proofs_fft_sym C14.Proofs_fft_layout C14.Proofs_fft_misc C14.Proofs_fft_opt.
+From Gst Require C14.FFT C14.Proofs_fft_ops C14.Proofs_fft_sym C14.Proofs_fft_layout C14.Proofs_fft_misc C14.Proofs_fft_opt C14.Proofs_fft_lag.
+From Gst Require C16.Model C16.Spec.
 (* END PART fft_pimp *)
 (* BEGIN PART law_pimp *)
 From Coq Require List ZArith QArith Qabs Qminmax Bool Lqa Permutation.
@@ -1154,7 +1155,7 @@ Export Part_proc.
 (* ================================ part fft ================================ *)
 Module Part_fft.
 Import List ZArith QArith Znumtheory Bool Lia.
-Import C14.FFT C14.Proofs_fft_ops C14.Proofs_fft_sym C14.Proofs_fft_layout C14.Proofs_fft_misc C14.Proofs_fft_opt.
+Import C14.FFT C14.Proofs_fft_ops C14.Proofs_fft_sym C14.Proofs_fft_layout C14.Proofs_fft_misc C14.Proofs_fft_opt C14.Proofs_fft_lag.
 Import ListNotations.
 Local Open Scope Z_scope.
 (* C14 / part fft : the theorems (index algebra of CalcSimuFFT.cpp, coefficient of SimuSpectral.cpp). *)
@@ -1263,6 +1264,38 @@ Proof. vm_compute. split; [reflexivity|discriminate]. Qed.
    the summed lags are no longer congruent to the cell index; witness extended size 8, original size 3 *)
 Theorem C14_old_fft_alias_period_refuted : exists d h nx x k, ev d h /\ 0 <= x < d /\ (jnd d h x + k * nx) mod d <> x.
 Proof. exact alias_fold_old_refuted. Qed.
+
+(* ---- 2b. from the wrapped indices of a cell to the real-space lag, rotated grids included ---- *)
+(* the grid geometry (node = indices -> coordinates: mesh, rotation, origin) is the model of property C16, used qualified *)
+
+(* _prepar (CalcSimuFFT.cpp:438-452, :502-508): with xyz1[j] = node(e_j) - node(0), the lag xyz[i] = sum_j jnd[j] * xyz1[j][i] of the index
+   vector jnd is the coordinate difference node(jnd) - node(0) = R.(jnd * dx), for every well-formed grid, rotated or not, any dimension *)
+Theorem C14_fft_lag_is_coordinate_difference : forall n g jnd, C16.Spec.wfgrid n g -> length jnd = n ->
+  C16.Spec.eqlQ (lag_of (step_mat g n) n jnd) (C16.Model.vsub (C16.Model.node g jnd) (C16.Model.node g (zero_ind n))) /\
+  C16.Spec.eqlQ (lag_of (step_mat g n) n jnd)
+                (C16.Model.rotate_direct (C16.Model.g_rot g) (C16.Model.map2 Qmult (map inject_Z jnd) (C16.Model.g_dx g))).
+Proof. exact lag_is_coordinate_difference. Qed.
+Print Assumptions C14_fft_lag_is_coordinate_difference.
+Example C14_fft_lag_is_coordinate_difference_nonvacuous :
+  C16.Spec.wfgrid 2 lag_witness_grid /\
+  map Qred (lag_of (step_mat lag_witness_grid 2) 2 [2; -1]) = [2 # 1; 1 # 1]%Q /\
+  map Qred (C16.Model.vsub (C16.Model.node lag_witness_grid [2; -1]) (C16.Model.node lag_witness_grid [0; 0])) = [2 # 1; 1 # 1]%Q /\
+  map Qred (lag_of_transposed (step_mat lag_witness_grid 2) 2 [2; -1]) = [2 # 5; -11 # 5]%Q.
+Proof. split; [exact lag_witness_wf|]. repeat split; vm_compute; reflexivity. Qed.
+
+(* REGRESSION (seeded change C14_1): the transposed reading sum_j jnd[j] * xyz1[i][j] is NOT the coordinate difference on a rotated grid:
+   unit mesh, rotation (cos, sin) = (3/5, 4/5), index vector (1,0): lag (3/5, 4/5), transposed form (3/5, -4/5) ... *)
+Theorem C14_fft_lag_transposed_refuted :
+  exists g jnd, C16.Spec.wfgrid 2 g /\ length jnd = 2%nat /\
+    ~ C16.Spec.eqlQ (lag_of_transposed (step_mat g 2) 2 jnd) (C16.Model.vsub (C16.Model.node g jnd) (C16.Model.node g (zero_ind 2))).
+Proof. exact lag_transposed_refuted. Qed.
+Print Assumptions C14_fft_lag_transposed_refuted.
+(* ... and coincides with the code when the grid is not rotated (the library keeps the rotation flagged off for the identity): why that
+   change is bit-identical on unrotated grids *)
+Theorem C14_fft_lag_transposed_unrotated : forall n g jnd, C16.Spec.wfgrid n g -> length jnd = n ->
+  C16.Model.r_flag (C16.Model.g_rot g) = false ->
+  C16.Spec.eqlQ (lag_of_transposed (step_mat g n) n jnd) (lag_of (step_mat g n) n jnd).
+Proof. exact lag_transposed_unrotated. Qed.
 
 (* ---- 3. _defineSym1 / _defineSym2 / _defineSym3 ---- *)
 
